@@ -84,6 +84,80 @@ CHECKS = {
              'recorder and compared with an independent normaliser.',
         note='Catalogue bounds in evidence; DNS rebinding and redirects out '
              'of scope.'),
+    'C10': dict(
+        level='model_checking', design='3/C10',
+        technique='explicit-state model checking of the implementation: '
+                  'DFS over interleavings x pause at every point x resume at '
+                  'every later point; transition oracle + reference-model '
+                  'differential',
+        text='Programs (sequence, fork, diamond, joins fed by starts, error '
+             'routes, publish+join, retry) x results are run with pause '
+             'issued at every point and resume at every later point of every '
+             'schedule within the bound; no task may be created in an '
+             'execution that is PAUSED before and after a step, an '
+             'acknowledged pause leaves the tree PAUSED, and after resume the '
+             'terminal outcome must be one the language allows for the '
+             'unpaused program.',
+        note='Commands delivered where issued; atomic transactions; '
+             'reference model trusted.'),
+    'C11': dict(
+        level='model_checking', design='3/C11',
+        technique='explicit-state model checking of the implementation: '
+                  'DFS over interleavings x stop(state) on root / nested '
+                  'execution at every point; transition and terminal oracles',
+        text='Programs incl. nesting depth 2 and with-items of '
+             'sub-workflows x stop(SUCCESS|ERROR|CANCELLED) on root or '
+             'nested execution at every point: requested state and message '
+             'held, no task creation in finished executions nor below a '
+             'cancelled one, finished executions frozen, every finished '
+             'sub-workflow reported to its parent exactly once, cancelled '
+             'children with CANCELLED parent tasks.',
+        note='Sub-workflows started in-process in quick; atomic '
+             'transactions.'),
+    'C12': dict(
+        level='model_checking', design='3/C12',
+        technique='explicit-state model checking of the implementation: '
+                  'DFS over interleavings x rerun / skip issued at every '
+                  'point where the task is in ERROR; reference-model '
+                  'differential ("as if the new result came first")',
+        text='For every program and every task that can fail, the failing '
+             'task is rerun (new attempt succeeding or failing, also twice) '
+             'or skipped at every point where it is in ERROR; afterwards '
+             'workflow and ancestors must be RUNNING and the terminal '
+             'outcome must be one the reference model allows for the '
+             'program in which the task had its new result / was skipped '
+             'from the start.',
+        note='Failed tasks without error handlers; reset=False left to '
+             'with-items (C07).'),
+    'C16': dict(
+        level='model_checking', design='3/C16', engine='op-mc',
+        technique='exhaustive enumeration of the controller tree x policy '
+                  'configurations x request variants and of all (current '
+                  'state x requested state/fields) guard combinations over '
+                  'the real WSGI app, against a reference policy/guard table',
+        text='Every exposed controller method (walked from the controller '
+             'tree) x rule denied/allowed x resource present/absent x list '
+             'variants, and every state/field combination of the '
+             'state-changing requests, is sent through the real pecan app '
+             'with the real policy enforcer; a denied request must answer '
+             '403 with every table unchanged, no message sent and no SQL '
+             'before the denial; only documented moves succeed.',
+        note='Keystone stubbed; engine inline; request templates '
+             'hand-written (harness error if an allowed request stops '
+             'succeeding).'),
+    'C18': dict(
+        level='model_checking', design='3/C18', engine='op-mc',
+        technique='bounded exhaustive enumeration of execution-tree '
+                  'populations x all settings tuples through the real '
+                  'expiration policy and DB cascade, against a reference '
+                  'eligibility model',
+        text='All populations of <= 3 roots (5 thorough) with every state, '
+             'age class, project and nesting shape within the stated bounds '
+             'x the full 144-tuple settings product are evaluated once by '
+             'the real periodic task; deleted set, order, completeness of '
+             'remaining trees and termination are compared with the '
+             'reference.',
+        note='One evaluation per case on a quiescent DB; SQLite cascade.'),
     'C13': dict(
         level='model_checking', design='3/C13', engine='sched-mc',
         technique='explicit-state model checking of the real scheduler '
@@ -143,6 +217,11 @@ def main():
              'serves_properties': ['C13'],
              'kind_free_text': 'the engine explorer driving the real '
                                'DefaultScheduler/LegacyScheduler loops'},
+            {'name': 'op-mc', 'path': 'checks/c16.py',
+             'serves_properties': ['C16', 'C18'],
+             'kind_free_text': 'exhaustive enumeration of operation / '
+                               'configuration spaces over the real DB API '
+                               'and WSGI app against reference models'},
             {'name': 'input-mc', 'path': 'checks/c19.py',
              'serves_properties': ['C19'],
              'kind_free_text': 'exhaustive enumeration of a finite input '
